@@ -338,3 +338,24 @@ def predict_modes(script):
         r = s.step(l)
         out.append(s.last_mode if (r == 'OK' and l.split(' ')[0] in ('EN', 'RC')) else None)
     return out
+
+
+def predict_rekeyed(script):
+    """for every `RK p` line the reference semantics accepts: the names (as in the dumps: 'r' + LEB128 of the sorted
+    identifiers, hex) of the rights that rekey must give a NEW public value; None elsewhere"""
+    def leb(v):
+        o = bytearray()
+        while True:
+            b = v & 0x7f; v >>= 7
+            if v: o.append(b | 0x80)
+            else: o.append(b); return bytes(o)
+    s = Spec(); out = []
+    for l in script:
+        f = l.split(' '); rs = None
+        if f[0] == 'RK':
+            try: rs = s.usk_rights(s.dims, bytes.fromhex(f[1][1:]).decode())
+            except Exception: rs = None
+            if rs is not None and any(r not in s.msk for r in rs): rs = None
+        r = s.step(l)
+        out.append({'r' + b''.join(leb(i) for i in sorted(x)).hex() for x in rs} if (rs is not None and r == 'OK') else None)
+    return out
